@@ -19,6 +19,16 @@ HERE = os.path.dirname(os.path.dirname(os.path.abspath(__file__)))
 REPO = os.environ.get("VERIF_REPO_BASE", "/repo")
 
 
+def die_with_parent():
+    try:
+        import ctypes
+        import signal
+
+        ctypes.CDLL("libc.so.6").prctl(1, signal.SIGKILL)
+    except Exception:
+        pass
+
+
 def make_copy(tag):
     d = tempfile.mkdtemp(prefix="vf-mut-%s-" % tag, dir="/tmp")
     for name in ("src", "tests", "pyproject.toml", "setup.cfg", "setup.py", "tox.ini"):
@@ -51,7 +61,7 @@ def apply(d, m):
 def run_tests(d):
     env = dict(os.environ, PYTHONPATH=os.path.join(d, "src"), PYTHONDONTWRITEBYTECODE="1")
     try:
-        r = subprocess.run(["/venv/bin/python", "-m", "pytest", "-q", "-x", "-p", "no:cacheprovider", "tests"], cwd=d, env=env, capture_output=True, text=True, timeout=180)
+        r = subprocess.run(["/venv/bin/python", "-m", "pytest", "-q", "-x", "-p", "no:cacheprovider", "tests"], cwd=d, env=env, capture_output=True, text=True, timeout=180, preexec_fn=die_with_parent)
     except subprocess.TimeoutExpired:
         return False, "test-suite timed out (hang)"
     tail = (r.stdout.strip().splitlines() or [""])[-1]
@@ -61,7 +71,7 @@ def run_tests(d):
 def run_check(d, prop, tier, seed):
     env = dict(os.environ, VERIF_REPO=d, VERIF_SEED=str(seed))
     t0 = time.time()
-    r = subprocess.run([os.path.join(HERE, "check"), prop, tier, "--no-evidence"], cwd=HERE, env=env, capture_output=True, text=True)
+    r = subprocess.run([os.path.join(HERE, "check"), prop, tier, "--no-evidence"], cwd=HERE, env=env, capture_output=True, text=True, preexec_fn=die_with_parent)
     keys = [ln.split()[1] for ln in r.stdout.splitlines() if ln.startswith("violation key=")]
     return {"rc": r.returncode, "violation": "VIOLATION property=" in r.stdout, "keys": keys, "wall_s": round(time.time() - t0, 1),
             "tail": r.stdout.strip().splitlines()[-1:] if r.returncode not in (0, 1) else []}
